@@ -35,6 +35,8 @@ type scriptedServer struct {
 	getStatus int // status for GET on Streamable (0 = serve a stream)
 	onStream  func(w scriptWriter) // called once the background stream is open
 	childExit func()               // stdio: effect of the child process exiting
+	gateConnect *hx.Flag           // legacy SSE: the server stalls before the headers of the connect GET until set
+	gateInit    *hx.Flag           // the server withholds its answer to initialize until set
 }
 
 // scriptWriter writes on the channel on which the answer to the current request is expected.
@@ -203,6 +205,9 @@ func (s *scriptedServer) serveHTTP(w0 http.ResponseWriter, r *http.Request) {
 		if s.initHook != nil && s.initHook(a, idRaw) {
 			return
 		}
+		if s.gateInit != nil {
+			s.gateInit.Wait("scripted server withholds the answer to initialize")
+		}
 		a.Frame(s.initAnswer(idRaw))
 	case method != "" && idRaw == "": // notification
 		if method == "notifications/initialized" && s.noInitted {
@@ -247,6 +252,9 @@ func (s *scriptedServer) waitClosed(r *http.Request) {
 
 func (s *scriptedServer) serveLegacy(w *memnet.ResponseWriter, r *http.Request, body []byte) {
 	if r.Method == http.MethodGet {
+		if s.gateConnect != nil {
+			s.gateConnect.Wait("scripted server stalls before the headers of the SSE stream")
+		}
 		w.Header().Set("Content-Type", "text/event-stream")
 		w.WriteHeader(200)
 		w.Flush()
@@ -276,10 +284,14 @@ func (s *scriptedServer) serveLegacy(w *memnet.ResponseWriter, r *http.Request, 
 		return
 	}
 	w.WriteHeader(202)
+	w.Flush() // the POST is acknowledged at once; the answer travels on the stream
 	switch {
 	case method == "initialize":
 		if s.initHook != nil && s.initHook(a, idRaw) {
 			return
+		}
+		if s.gateInit != nil {
+			s.gateInit.Wait("scripted server withholds the answer to initialize")
 		}
 		a.Frame(s.initAnswer(idRaw))
 	case method != "" && idRaw != "":
@@ -341,6 +353,9 @@ func (s *scriptedServer) runStdio() {
 			case method == "initialize":
 				if s.initHook != nil && s.initHook(a, idRaw) {
 					continue
+				}
+				if s.gateInit != nil {
+					s.gateInit.Wait("scripted server withholds the answer to initialize")
 				}
 				a.Frame(s.initAnswer(idRaw))
 			case method != "" && idRaw != "":
